@@ -33,6 +33,8 @@ def run_property(prop: str, tier: str, prog: Program = None, write=True, quiet=F
         rep.error(f"internal error: {type(e).__name__}: {e} @ {tb[-3].strip() if len(tb) >= 3 else ''}")
         if os.environ.get("VERIF_DEBUG"):
             traceback.print_exc()
+    if os.environ.get("VERIF_NO_WRITE"):
+        write = False
     return finish(rep, prog, t0, seed, write=write, quiet=quiet)
 
 
